@@ -85,6 +85,10 @@ package cache
 //@   property C06
 //@   float real
 //@   call NewUnstable#0: assert arg_deviation == 0.05
+// a new node is built from its arguments and touches nothing that exists
+//@   ensures typeIs(result, cacheNode) && result.(cacheNode).rds == rds && result.(cacheNode).barrier == barrier && result.(cacheNode).stat == st && result.(cacheNode).errNotFound == errNotFound
+//@   modifies calls
+//@   allocates
 
 // the requested expiry is what reaches the node / the store on every path
 //@ ghost var cswCalls int
@@ -143,6 +147,8 @@ package cache
 //@   flag callbacks_noheap
 //@   loop 0: modifies o
 //@   ensures result.Expiry > 0 && result.NotFoundExpiry > 0
+//@   modifies calls
+//@   allocates
 
 // retry of a failed invalidation: 1 s after the write, then after 5 s, 1 min, 5 min and 1 h; a retry that fails again is
 // re-armed as a NEW timer (the wheel has already dropped the one that fired) under the same key with the next delay, until
@@ -176,14 +182,12 @@ package cache
 
 // cache.New: one configured node -> that node alone; more than one -> a cluster in which EVERY configured node (whatever its
 // weight) joins the ring with exactly its configured weight; every node is built on the caller's barrier, stats, not-found
-// error and options. (Assumed at the call, stated: the ring is in the state AddWithWeight requires - proved for the fresh ring,
-// its preservation by AddWithWeight is covered by the bounded stand-in for the ring.)
+// error and options. The ring is in the state AddWithWeight requires throughout (fresh ring and every AddWithWeight: proved).
 //@ func New
 //@   property C15 C06 C07
-//@   call AddWithWeight#0: assume hash.addReady(dispatcher)
 //@   call AddWithWeight#0: assert arg_weight == node.Weight && arg_node == cn
 //@   call NewNode#*: assert arg_barrier == barrier && arg_st == st && arg_errNotFound == errNotFound && sameSlice(arg_opts, opts)
 //@   call NewNode#0: assert len(c) == 1
-//@   loop 0: invariant dispatcher != nil
+//@   loop 0: invariant dispatcher != nil && hash.addReady(dispatcher)
 //@   ensures implies(len(c) != 1, typeIs(result, cacheCluster) && result.(cacheCluster).errNotFound == errNotFound && result.(cacheCluster).dispatcher != nil)
 //@   allocates
